@@ -223,6 +223,26 @@ def f3_build_time_rejection(F, r):
             r.ok(name, f"{errs} rejecting exits ({what})")
         else:
             r.fail(name, f"only {errs} rejecting exits left, {floor} consistency checks were confirmed ({what}): an inconsistent matrix set is accepted when the provider is built", F.loc(fid))
+    # time-agnostic provider: matrix i of the sorted set must BE profile i (`durations[profile.index]` is read by position): the constructor compares every index with its
+    # position — a counter (`(0..).zip(..)` / `enumerate`) walks along with the matrices in some consumer of the constructor
+    ta = [i for i in F.fns if i.startswith("vrp_core::models::problem::costs::TimeAgnosticMatrixTransportCost") and i.endswith("::new")]
+    if len(ta) != 1:
+        raise AnchorError(f"TimeAgnosticMatrixTransportCost::new resolves to {ta}")
+    positional = False
+    for g in F.family(ta[0]):
+        gfn = F.fns[g]
+        for bi, t in mir.calls(gfn):
+            if not t["callee"].startswith("core::iter::traits::iterator::Iterator::") or not t["ga"]:
+                continue
+            ty = t["ga"][0]
+            if t["callee"].split("::")[-1] in ("any", "all", "try_for_each", "for_each", "find", "position", "next", "try_fold", "fold") and "MatrixData" in ty and \
+                    ("ops::range::RangeFrom" in ty or "adapters::enumerate::" in ty or "ops::range::Range<" in ty):
+                positional = True
+    if positional:
+        r.ok("TimeAgnostic::new: index = position", "every profile index is compared with its position in the sorted matrix set")
+    else:
+        r.fail("TimeAgnostic::new: index = position", "the constructor no longer walks the sorted matrices together with a position counter: a set with a gap in the profile indices "
+               "(e.g. {1, 2}) is accepted and profile i silently answers with the matrix of another profile", F.loc(ta[0]))
     # the distance/duration length agreement check compares the two fields
     cm = "vrp_core::models::problem::costs::create_matrix_transport_cost_with_fallback"
     found = False
